@@ -131,6 +131,8 @@ type Node struct {
 	Tpl map[string]string
 	// Pre is the number of instructions before (and including) the HALT; len(Code) if no HALT.
 	HaltAt int // index of HALT in Code, -1 if none
+	// NegProbe names a symbol the template references although the node never maps it.
+	NegProbe string
 }
 
 const (
